@@ -5,6 +5,7 @@ import (
 	"errors"
 	"fmt"
 	"net"
+	"sync"
 	"sync/atomic"
 	"time"
 
@@ -15,6 +16,7 @@ import (
 	"github.com/anacrolix/dht/v2/krpc"
 
 	"verifharness/benc"
+	"verifharness/census"
 	"verifharness/evid"
 	"verifharness/gen"
 	"verifharness/simnet"
@@ -43,6 +45,11 @@ func c19(c *evid.Ctx) {
 	c.Floor("outbound attempts towards blocked addresses judged", 1)
 }
 
+// pendingOK: open queries, including senders the harness holds inside the resend-delay callback.
+func c19pendingOK(g census.G) bool {
+	return srv.PendingQueryOK(g) || g.Parked() && (g.Has("transactionSender") || g.Has("transactionQuerySender"))
+}
+
 func c19run(c *evid.Ctx, r *gen.Rand, run int) {
 	passive := run%4 == 3
 	atConstruction := run%2 == 0
@@ -50,7 +57,23 @@ func c19run(c *evid.Ctx, r *gen.Rand, run int) {
 	ps := &recPeerStore{}
 	st := &recStore{inner: bep44.NewMemory()}
 	an := &recAnnounce{}
-	var delay = func() time.Duration { return time.Hour }
+	// Queries opened before the block have NumTries 3; their resend waits until the block is in
+	// place, so that the resend is attempted against the new list.
+	blockInPlace := make(chan struct{})
+	var gmu sync.Mutex
+	gdest := map[int64]string{}   // sender goroutine -> destination of its last write
+	resend := map[string]bool{}   // destinations whose open query is to attempt a resend after the block
+	var delay = func() time.Duration {
+		gmu.Lock()
+		d := gdest[curGoroutine()]
+		rs := resend[d]
+		gmu.Unlock()
+		if rs {
+			<-blockInPlace
+			return time.Millisecond
+		}
+		return time.Hour
+	}
 	short := false
 	cfg := dht.ServerConfig{NoSecurity: true, Passive: passive, PeerStore: ps, Store: st, OnAnnouncePeer: an.cb,
 		QueryResendDelay: func() time.Duration {
@@ -96,6 +119,12 @@ func c19run(c *evid.Ctx, r *gen.Rand, run int) {
 		return
 	}
 	defer n.Close()
+	n.Conn.SetHook(func(d simnet.Datagram) error {
+		gmu.Lock()
+		gdest[curGoroutine()] = d.To.String()
+		gmu.Unlock()
+		return nil
+	})
 	desc := fmt.Sprintf("passive=%v blocklist %s", passive, map[bool]string{true: "at construction", false: "installed later"}[atConstruction])
 	c.WAL("run %d %s", run, desc)
 	covered := func(a *net.UDPAddr) bool { return bl.Covers(a.IP) }
@@ -139,6 +168,7 @@ func c19run(c *evid.Ctx, r *gen.Rand, run int) {
 		t      string
 		cancel context.CancelFunc
 		done   chan dht.QueryResult
+		tries  int
 	}
 	var opened []open
 	if !atConstruction {
@@ -157,7 +187,14 @@ func c19run(c *evid.Ctx, r *gen.Rand, run int) {
 			ctx, cancel := context.WithCancel(context.Background())
 			done := make(chan dht.QueryResult, 1)
 			x := x
-			go func() { done <- n.S.Query(ctx, dht.NewAddr(x), "ping", dht.QueryInput{}) }()
+			tries := 1
+			if len(opened)%2 == 0 {
+				tries = 3
+				gmu.Lock()
+				resend[x.String()] = true
+				gmu.Unlock()
+			}
+			go func() { done <- n.S.Query(ctx, dht.NewAddr(x), "ping", dht.QueryInput{NumTries: tries}) }()
 			t := ""
 			deadline := time.Now().Add(20 * time.Second)
 			for t == "" && time.Now().Before(deadline) {
@@ -170,18 +207,40 @@ func c19run(c *evid.Ctx, r *gen.Rand, run int) {
 				}
 				time.Sleep(20 * time.Microsecond)
 			}
-			opened = append(opened, open{x, t, cancel, done})
+			opened = append(opened, open{x, t, cancel, done, tries})
 		}
-		if err := n.Quiesce(srv.PendingQueryOK); err != nil {
+		if err := n.Quiesce(c19pendingOK); err != nil {
 			c.Inconclusive(err.Error())
 			return
 		}
 		blockNow()
-		if run%3 == 0 {
-			n.S.SetIPBlockList(bl)
-		} else {
-			n.S.SetIPBlockList(bl)
+		n.S.SetIPBlockList(bl)
+	}
+	blockMark := n.Conn.NumCaptured()
+	close(blockInPlace)
+	// The resends are attempted now and must be refused: those queries end with an error. Wait for
+	// exactly that before going on, so that nothing of it is mistaken for an effect of a later datagram.
+	stillOpen := opened[:0:0]
+	for _, o := range opened {
+		if o.tries == 1 {
+			stillOpen = append(stillOpen, o)
+			continue
 		}
+		select {
+		case res := <-o.done:
+			if res.Err == nil {
+				c.Violation("query-completed-by-datagram-from-blocked-source", fmt.Sprintf("%s: query to %v returned y=%q although nothing answered it", desc, o.x, res.Reply.Y), nil)
+			}
+			c.Count("queries opened before the block whose resend was refused afterwards", 1)
+		case <-time.After(30 * time.Second):
+			c.Inconclusive(desc + ": a query whose resend should have been refused is still running")
+			return
+		}
+	}
+	opened = stillOpen
+	if err := n.Quiesce(c19pendingOK); err != nil {
+		c.Inconclusive(err.Error())
+		return
 	}
 	// ---- inbound from blocked sources ----
 	// Start with the source the node heard from last before the block (a per-source verdict cached
@@ -211,7 +270,7 @@ func c19run(c *evid.Ctx, r *gen.Rand, run int) {
 			before := observe()
 			mark := n.Conn.NumCaptured()
 			n.Conn.Inject(m, src)
-			if err := n.Quiesce(srv.PendingQueryOK); err != nil {
+			if err := n.Quiesce(c19pendingOK); err != nil {
 				// The node does not settle after a datagram from a blocked source: if its API or
 				// its serve loop is stuck, that datagram had an effect.
 				cf := c01cfg{passive: passive}
@@ -234,11 +293,15 @@ func c19run(c *evid.Ctx, r *gen.Rand, run int) {
 			}
 		}
 	}
-	// the queries opened before the block must still be open
+	// the queries opened before the block must not have been completed by anything; they may have
+	// failed on a resend that the new list refused
 	for _, o := range opened {
 		select {
 		case res := <-o.done:
-			c.Violation("query-completed-by-datagram-from-blocked-source", fmt.Sprintf("%s: query to %v returned err=%v y=%q", desc, o.x, res.Err, res.Reply.Y), nil)
+			if res.Err == nil {
+				c.Violation("query-completed-by-datagram-from-blocked-source", fmt.Sprintf("%s: query to %v returned err=%v y=%q", desc, o.x, res.Err, res.Reply.Y), nil)
+			}
+			c.Count("queries opened before the block that ended with an error afterwards", 1)
 		default:
 			o.cancel()
 			res := <-o.done
@@ -248,6 +311,12 @@ func c19run(c *evid.Ctx, r *gen.Rand, run int) {
 		}
 	}
 	n.Quiesce(nil)
+	for _, d := range n.Conn.Captured(blockMark) {
+		if covered(d.To) {
+			c.Violation("datagram-sent-to-blocked-address:resend-of-a-query-opened-before-the-block", fmt.Sprintf("%s: %q written to %v after SetIPBlockList had returned", desc, truncBytes(d.B), d.To), nil)
+			break
+		}
+	}
 	// ---- outbound API calls towards blocked addresses ----
 	short = true
 	for _, x := range X {
